@@ -86,6 +86,10 @@ def strip_comments(text):
         elif text.startswith('--', i):
             while i < n and text[i] != '\n':
                 i += 1
+        elif text[i] == "'" and i + 2 < n and ((text[i + 1] != '\\' and text[i + 2] == "'") or
+                                             (text[i + 1] == '\\' and i + 3 < n and text[i + 3] == "'")):
+            # character literal ('"' must not open a string)
+            i += 3 if text[i + 1] != '\\' else 4
         elif text[i] == '"':
             i += 1
             while i < n and text[i] != '"':
